@@ -142,36 +142,42 @@ func agreePersist(r *engine.Run, rule string) {
 	}
 	isPersist := func(t types.Type) *types.Named {
 		nm := namedOf(t)
-		if nm != nil && strings.HasPrefix(nm.Obj().Name(), "PersistNode") && nm.Obj().Name() != "PersistNodeBase" {
+		if nm != nil && strings.HasPrefix(nm.Obj().Name(), "Persist") && nm.Obj().Name() != "PersistNodeBase" && nm.Obj().Name() != "PersistTrie" && nm.Obj().Name() != "PersistTriePair" {
 			return nm
 		}
 		return nil
 	}
+	// writers and readers anywhere in the package (the codec may be split into
+	// helpers): a field is written where it is the target of a store, read where
+	// it is loaded
 	written := map[string]string{}
+	read := map[string]bool{}
 	for _, f := range funcsOfPkg(r, pkgWMPT) {
-		if f.Name() != "Serialize" {
+		if isGenFile(r, f.Pos()) {
 			continue
 		}
 		engine.Instrs(f, func(in ssa.Instruction) {
-			st, ok := in.(*ssa.Store)
+			fa, ok := in.(*ssa.FieldAddr)
 			if !ok {
 				return
 			}
-			if fa, ok := st.Addr.(*ssa.FieldAddr); ok {
-				if nm := isPersist(fa.X.Type()); nm != nil {
-					written[nm.Obj().Name()+"."+engine.FieldOf(fa).Name()] = r.P.Pos(st.Pos())
+			nm := isPersist(fa.X.Type())
+			if nm == nil {
+				return
+			}
+			key := nm.Obj().Name() + "." + engine.FieldOf(fa).Name()
+			for _, ref := range engine.Referrers(fa) {
+				switch x := ref.(type) {
+				case *ssa.Store:
+					if x.Addr == ssa.Value(fa) {
+						written[key] = r.P.Pos(x.Pos())
+					}
+				case *ssa.UnOp:
+					read[key] = true
 				}
 			}
 		})
 	}
-	read := map[string]bool{}
-	engine.Instrs(des, func(in ssa.Instruction) {
-		if fa, ok := in.(*ssa.FieldAddr); ok {
-			if nm := isPersist(fa.X.Type()); nm != nil {
-				read[nm.Obj().Name()+"."+engine.FieldOf(fa).Name()] = true
-			}
-		}
-	})
 	var keys []string
 	for k := range written {
 		keys = append(keys, k)
@@ -318,12 +324,7 @@ func domProofAppend(r *engine.Run, rule string) {
 			}
 		}
 	})
-	var nodeP ssa.Value
-	for _, p := range f.Params {
-		if p.Name() == "node" {
-			nodeP = p
-		}
-	}
+	nodeP := paramRole(f, "node")
 	arms := typeArms(f, nodeP)
 	n := 0
 	o := ord{}
@@ -364,5 +365,119 @@ func domProofAppend(r *engine.Run, rule string) {
 	}
 	if n < 3 {
 		r.Anchor(rule, fmt.Errorf("unresolved anchor: %d descent/success sites in getBlockProof", n))
+	}
+}
+
+// ---- AGREE-decode: what DeserializeNode rebuilds from a branch / shared prefix -------
+
+func agreeDecode(r *engine.Run, rule string) {
+	f := r.Fn(rule, pkgWMPT, "", "DeserializeNode")
+	if f == nil {
+		return
+	}
+	// (1) the branch weight is accumulated from the decoded child weights
+	var weightReads []ssa.Value
+	engine.Instrs(f, func(in ssa.Instruction) {
+		if c, ok := in.(*ssa.Call); ok {
+			if sc := c.Call.StaticCallee(); sc != nil && sc.Name() == "Uint64" && sc.Signature.Recv() != nil {
+				if nm := namedOf(sc.Signature.Recv().Type()); nm != nil && nm.Obj().Pkg() != nil && nm.Obj().Pkg().Path() == "encoding/binary" {
+					weightReads = append(weightReads, c)
+				}
+			}
+		}
+	})
+	accumulated := false
+	var childStores []*ssa.Store
+	engine.Instrs(f, func(in ssa.Instruction) {
+		st, ok := in.(*ssa.Store)
+		if !ok {
+			return
+		}
+		a := st.Addr
+		if ia, ok := a.(*ssa.IndexAddr); ok {
+			if fa, ok := ia.X.(*ssa.FieldAddr); ok && engine.FieldOf(fa).Name() == "Children" {
+				if nm := namedOf(fa.X.Type()); nm != nil && nm.Obj().Name() == "routingNode" {
+					childStores = append(childStores, st)
+				}
+			}
+			return
+		}
+		if fa, ok := a.(*ssa.FieldAddr); ok && engine.FieldOf(fa).Name() == "weight" {
+			if nm := namedOf(fa.X.Type()); nm != nil && nm.Obj().Name() == "routingNode" {
+				for _, w := range weightReads {
+					if dependsOn(st.Val, w) {
+						accumulated = true
+					}
+				}
+			}
+		}
+	})
+	r.Check(accumulated, rule, fn(f)+"|branch weight", r.P.Pos(f.Pos()), "the decoded branch's weight is accumulated from the child weights it read",
+		"a decoded branch no longer sums the weights of its children: its weight is zero, so range checks and weight-ordered descents on loaded or proven branches go wrong")
+	// (2) every accepted child entry ends up in a child slot: from the block that
+	// read a child's weight, the loop head is not reachable without passing a
+	// store into Children[i] (or leaving through a return)
+	storeBlocks := map[*ssa.BasicBlock]bool{}
+	for _, st := range childStores {
+		storeBlocks[st.Block()] = true
+	}
+	linked := len(childStores) > 0
+	for _, w := range weightReads {
+		wc := w.(*ssa.Call)
+		start := wc.Block()
+		if storeBlocks[start] || !inLoopBody(start) {
+			continue
+		}
+		// loop head: a block that dominates start and is reachable from it
+		seen := map[*ssa.BasicBlock]bool{start: true}
+		work := []*ssa.BasicBlock{start}
+		for len(work) > 0 {
+			b := work[0]
+			work = work[1:]
+			for _, s := range b.Succs {
+				if seen[s] || storeBlocks[s] {
+					continue
+				}
+				if _, isRet := s.Instrs[len(s.Instrs)-1].(*ssa.Return); isRet {
+					continue
+				}
+				if s.Dominates(start) && s != start {
+					linked = false // reached the loop head again without a store
+					continue
+				}
+				seen[s] = true
+				work = append(work, s)
+			}
+		}
+	}
+	r.Check(linked, rule, fn(f)+"|child slots", r.P.Pos(f.Pos()), "every accepted child entry of a persisted branch is stored into a child slot",
+		"a child entry of a persisted branch is accepted but not stored into the decoded branch: the loaded branch lacks a child its hash commits to")
+	// (3) the shared-prefix node persists its value's hash and weight
+	if g := r.Fn(rule, pkgWMPT, "shortNode", "Serialize"); g != nil {
+		hashCopied, weightPut := false, false
+		engine.Instrs(g, func(in ssa.Instruction) {
+			c, ok := in.(*ssa.Call)
+			if !ok {
+				return
+			}
+			if b, ok := c.Call.Value.(*ssa.Builtin); ok && b.Name() == "copy" {
+				if hc, ok := c.Call.Args[1].(*ssa.Call); ok {
+					if _, is := engine.IsMethodCall(hc, "Hash"); is {
+						hashCopied = true
+					}
+				}
+			}
+			if sc := c.Call.StaticCallee(); sc != nil && (sc.Name() == "PutUint64" || sc.Name() == "AppendUint64") {
+				for _, a := range c.Call.Args {
+					if wc, ok := a.(*ssa.Call); ok {
+						if _, is := engine.IsMethodCall(wc, "Weight"); is {
+							weightPut = true
+						}
+					}
+				}
+			}
+		})
+		r.Check(hashCopied && weightPut, rule, fn(g)+"|value reference", r.P.Pos(g.Pos()), "the persisted value reference is filled from the value's Hash() and Weight()",
+			fmt.Sprintf("the shared-prefix node no longer persists its value's hash (%v) or weight (%v): the loaded node points nowhere or weighs nothing", hashCopied, weightPut))
 	}
 }
